@@ -65,6 +65,8 @@ struct Profile {
     bool way_locations = false;    // node refs of ways carry locations
     int order = 0;                 // 0: sorted by type n,w,r,(c); 1: types alternate (many PBF blocks); 2: random
     bool big_ids = true;
+    uint32_t exact_objects = 0;    // != 0: exactly this many objects (block-boundary runs)
+    bool only_nodes = false;
     bool wild_locations = false;   // visible nodes without location
     bool invalid_coordinates = false;   // ... and coordinates outside +-180/+-90 (only PBF can express them; XML and OPL write degrees and reject them on reading)
     uint32_t max_tags = 5;
@@ -227,11 +229,13 @@ inline Data gen_data(const Profile& p) {
         d.boxes.push_back(BoxM{x1, y1, x2, y2});
     }
     d.generator = sim::choose(s, 2) ? std::string{} : std::string{"verif-gen"};
-    const uint32_t n = 1 + sim::choose(s, p.max_objects);
+    const uint32_t n = p.exact_objects ? p.exact_objects : 1 + sim::choose(s, p.max_objects);
     const char* types = p.changesets ? "nwrc" : "nwr";
     const uint32_t ntypes = p.changesets ? 4 : 3;
     std::vector<char> seq;
-    if (p.order == 0) {
+    if (p.only_nodes) {
+        seq.assign(n, 'n');
+    } else if (p.order == 0) {
         uint32_t cut[4] = {0, 0, 0, 0};
         for (uint32_t t = 0; t < ntypes; ++t) { cut[t] = sim::choose(s, n + 1); }
         // type t gets a share proportional to its draw
